@@ -593,7 +593,12 @@ func (c Constant) String() string {
 		}
 		var s strings.Builder
 		s.WriteRune('[')
-		s.WriteString((*c.fst).String())
+		first := (*c.fst).String()
+		if strings.HasPrefix(first, "-") {
+			// "[-" would be read as the box-minus operator token.
+			s.WriteRune(' ')
+		}
+		s.WriteString(first)
 		c = *c.snd
 		for !c.IsListNil() {
 			s.WriteString(", ")
@@ -608,7 +613,12 @@ func (c Constant) String() string {
 		}
 		var s strings.Builder
 		s.WriteRune('[')
-		s.WriteString((*c.fst.fst).String())
+		firstKey := (*c.fst.fst).String()
+		if strings.HasPrefix(firstKey, "-") {
+			// "[-" would be read as the box-minus operator token.
+			s.WriteRune(' ')
+		}
+		s.WriteString(firstKey)
 		s.WriteString(" : ")
 		s.WriteString((*c.fst.snd).String())
 		c = *c.snd
